@@ -11,6 +11,7 @@ mod c04;
 mod c10;
 mod c14;
 mod c08;
+mod c08_compose;
 mod c08_report;
 mod c13;
 mod c11;
